@@ -196,7 +196,7 @@ CLAIMS = {
                 'doubles as "nothing recorded" in addDeepestError) are proved for every tree the parser model returns (C15_end_to_end has no '
                 'hypothesis on the tree) and also evaluated on every parsed tree. Tie: error type, path '
                 'text, expected, found compared exactly with the model on every failing generated pair; the extracted specification '
-                'runs next to the model; independent first-failing-step oracle for single-valued paths. From the path TEXT: C15_first_failing_step_from_text (ErrNames.v) — a path of name steps (any spelling) fails at the first step that cannot be taken, member-not-exist on an object without the member, type-unmatched (expected object, found Go type) on a non-object, carrying the text of that step as written; C15_first_failing_step_with_indexes_from_text (ErrSteps.v) — the same for paths of name and index steps ([n], negative from the end): an index outside the array is member-not-exist naming [n], an index under a non-array is type-unmatched expecting array; C15_failing_function_from_text (ErrFuns.v) — such a path followed by filter functions fails at the first step that cannot be taken, else at the first function that fails on what the functions before it returned (function-failed naming the call as written), else succeeds; C15_failing_aggregate_from_text (ErrAggs.v) — the same with an aggregate first (it receives the elements of the array reached, or the single value); the harness sends such texts (driver confirms Coq chain_path) broken at a chosen depth with the expectation computed from the document.',
+                'runs next to the model; independent first-failing-step oracle for single-valued paths. From the path TEXT: C15_first_failing_step_from_text (ErrNames.v) — a path of name steps (any spelling) fails at the first step that cannot be taken, member-not-exist on an object without the member, type-unmatched (expected object, found Go type) on a non-object, carrying the text of that step as written; C15_first_failing_step_with_indexes_from_text (ErrSteps.v) — the same for paths of name and index steps ([n] written with digits): an index outside the array is member-not-exist naming [n], an index under a non-array is type-unmatched expecting array; C15_failing_function_from_text (ErrFuns.v) — such a path followed by filter functions fails at the first step that cannot be taken, else at the first function that fails on what the functions before it returned (function-failed naming the call as written), else succeeds; C15_failing_aggregate_from_text (ErrAggs.v) — the same with an aggregate first (it receives the elements of the array reached, or the single value); the harness sends such texts (driver confirms Coq chain_path) broken at a chosen depth with the expectation computed from the document.',
         'note': NOTE_COMMON + EVAL_HYP,
         'technique': 'Coq refinement proof (model error = stateless error specification, mutual induction) + selection theorems + exact '
                      'error comparison + first-failing-step oracle'},
